@@ -33,6 +33,31 @@ pub struct BankData
 }
 
 
+/// Upper bound for bit positions, bank sizes and output offsets.
+/// Keeping each of them below this bound guarantees that the
+/// sums computed from them cannot overflow a machine word.
+pub const MAX_POSITION: usize = usize::MAX >> 8;
+
+
+fn check_position_limit(
+    report: &mut diagn::Report,
+    span: diagn::Span,
+    position: usize)
+    -> Result<(), ()>
+{
+    if position > MAX_POSITION
+    {
+        report.error_span(
+            "value is out of supported range",
+            span);
+        
+        return Err(());
+    }
+
+    Ok(())
+}
+
+
 #[derive(Clone)]
 pub enum ResolverNode<'ast>
 {
@@ -169,6 +194,11 @@ impl<'ast, 'decls> ResolveIterator<'ast, 'decls>
                             span,
                             cur_address_in_bits,
                             label_align)?;
+
+                        check_position_limit(
+                            report,
+                            span,
+                            cur_bank_data.cur_position)?;
                     }
                 }
 
@@ -410,13 +440,26 @@ impl<'ast, 'decls> ResolveIterator<'ast, 'decls>
                 let new_position = {
                     if addr.address >= bank.addr_start
                     {
-                        &addr.address.checked_sub(
+                        let maybe_position = addr.address.checked_sub(
                                 report,
                                 ast_addr.header_span,
                                 &bank.addr_start)?
                             .maybe_into::<usize>()
                             .unwrap_or(0)
-                            * bank.addr_unit
+                            .checked_mul(bank.addr_unit);
+
+                        match maybe_position
+                        {
+                            Some(position) => position,
+                            None =>
+                            {
+                                report.error_span(
+                                    "value is out of supported range",
+                                    ast_addr.header_span);
+                                
+                                return Err(());
+                            }
+                        }
                     }
                     else
                     {
@@ -429,6 +472,11 @@ impl<'ast, 'decls> ResolveIterator<'ast, 'decls>
 
             _ => {}
         }
+
+        check_position_limit(
+            report,
+            ast_any.span(),
+            self.bank_data[self.bank_ref.0].cur_position)?;
 
         Ok(())
     }
